@@ -2,6 +2,7 @@ import I18n.Model.Cli
 import I18n.Generated.StateSites
 import I18n.Lemmas.CliState
 import I18n.Lemmas.HashOrder
+import I18n.Model.CliWitness
 /-!
 # C03 (composition clause) — multi-file output is the concatenation of the single-file outputs
 
@@ -247,6 +248,16 @@ theorem unpatched_checker_refused (o : O) (g : G K' V) (hg : g.patched = false) 
     step proj f unpackDeb checkRegular checkDeb o g file = (g, .error .environmentNotPatched) := by
   simp [step, hg]
 
+/-- `check_file_s` leaves `sys.stdout` as it found it, whatever `check_file` did (kind scopedRedirect), and captures exactly
+    what `check_file` would have printed -/
+theorem check_file_s_is_check_file_captured (hkey : KeyDetermines proj f) (o : O) (g : G K' V) (hg : Inv proj f g) (file : F) :
+    (checkFileS proj f unpackDeb checkRegular checkDeb o g file).1.captured = g.captured
+    ∧ (checkFileS proj f unpackDeb checkRegular checkDeb o g file).2
+        = (step proj f unpackDeb checkRegular checkDeb o g file).2 := by
+  refine ⟨rfl, ?_⟩
+  rw [(checkFileS_inv unpackDeb checkRegular checkDeb hkey o g file hg).1,
+      (step_inv unpackDeb checkRegular checkDeb hkey o g file hg).1]
+
 end State
 
 /-! ### What the `pureCache` pin excludes: a cache keyed on less than its inputs (seeded change C03-a)
@@ -254,18 +265,7 @@ end State
 `polib_unescape` memoised on the escaped text alone, while its value also depends on the charset of the file being parsed.
 Two files with the same escaped text and different charsets: the second file is printed with the first file's decoding. -/
 section Stale
-open I18n.CliState
-
-/-- key = (escaped text, charset of the file on the stack); the cache sees the text only -/
-def staleProj : String × String → String := Prod.fst
-/-- decoding depends on the charset -/
-def staleF : String × String → String := fun k => k.2 ++ ":" ++ k.1
-/-- a file = its declared charset; it contains the escaped text `\xa4` and prints its decoding -/
-def staleCheck : Unit → String → Prog (String × String) String :=
-  fun _ cs => .ask ("\\xa4", cs) (fun v => .done [v])
-def lines : Except Err (List String) → List String
-  | .ok l => l
-  | .error _ => ["<exception>"]
+open I18n.CliState I18n.CliWitness
 
 /-- the lossy key does not determine the value … -/
 theorem stale_key_does_not_determine : ¬ KeyDetermines staleProj staleF := by
@@ -300,6 +300,23 @@ example :
       = ["ISO-8859-1:\\xa4", "ISO-8859-15:\\xa4", "ISO-8859-1:\\xa4"] := by
   decide
 end Stale
+
+/-! ### What `per_file_mutations_hit_per_call_objects` excludes: a per-file function writing into the shared options
+(seeded change C03-d; the defect repaired by 6966f22)
+
+In the model the options `o` are an immutable parameter of every `step` — justified by the pin: no mutation of the per-file
+path reaches an object created in `main`.  If `check_deb` adds `unknown-file-type` to the `ignore_tags` set that all files
+share, the options become one more component of the threaded state, and a later file loses a line. -/
+section SharedOptions
+open I18n.CliWitness
+
+theorem shared_options_mutation_breaks_concat :
+    runWith stepShared [] [("gizmo.deb", true), ("readme.txt", false)]
+      ≠ runWith stepShared [] [("gizmo.deb", true)] ++ runWith stepShared [] [("readme.txt", false)]
+    ∧ runWith stepCopy [] [("gizmo.deb", true), ("readme.txt", false)]
+      = runWith stepCopy [] [("gizmo.deb", true)] ++ runWith stepCopy [] [("readme.txt", false)] := by
+  decide
+end SharedOptions
 
 /-! ## Hash-seed independence inside the model (`Model/HashOrder.lean`)
 
